@@ -1766,7 +1766,8 @@ hdf_read_vars(XDR *xdrs, NC *handle, int32 vg)
                          *   equation.  I don't remember why its there
                          *   (4-Nov-93)
                          */
-                        vp->numrecs = data_count / vp->dsizes[0];
+                        /* a record written only in part (no-fill mode) still counts */
+                        vp->numrecs = (data_count + (int32)vp->dsizes[0] - 1) / (int32)vp->dsizes[0];
 
                         /*
                          * Deallocate the shape info as it will be recomputed
